@@ -629,6 +629,11 @@ func runC1(c CaseC) (v *core.Violation) {
 			return core.V("c|rest|forward-stays", "forward %08x was removed by the agent, the forward table holds %x", id, fw)
 		}
 	}
+	// an accept loop whose listener a kill has just closed ends asynchronously: give it time; one
+	// that is still there after the bound will be there for ever
+	if !x.uncertain {
+		waitFor(waitBound, func() bool { return count().starts <= len(proxies) })
+	}
 	if n := count().starts; n > len(proxies) && !x.uncertain {
 		return core.V("c|rest|listener-without-proxy", "%d accept loops are running, the proxy table holds %v", n, proxies)
 	}
